@@ -84,3 +84,8 @@ func init() {
 func init() {
 	register("C03", ruleAztecState)
 }
+
+func init() {
+	register("C10", ruleEntryPoints, ruleGuards)
+	register("C07", ruleEntryPoints)
+}
